@@ -135,6 +135,7 @@ class Elab:
         self.counter = 0
         self.toplevel = set()
         self.mems = {}  # name -> dict(sig, iw, ih, im, data, when, unconditional)
+        self.renamed_cells = []  # (source name, instance name) of second and later elaborations of one declaration
 
     def lookup(self, n):
         for sc in reversed(self.scopes):
@@ -231,30 +232,40 @@ class Elab:
                 #                     vw + vh when the compiler keeps the gate pair (decided per blueprint)
                 #   latch           : read = value * bit
                 n = s[1]
+                # every elaboration of a declaration is its own cell (a function body declaring a memory gives
+                # each call site a cell of its own): the first instance keeps the source name, later ones are
+                # renamed apart
+                inst = n
+                if inst in self.mems:
+                    k_ = 2
+                    while f"{n}#{k_}" in self.mems:
+                        k_ += 1
+                    inst = f"{n}#{k_}"
+                    self.renamed_cells.append((n, inst))
                 later = [x for x in stmts if x[0] in ("write", "latch") and x[1] == n]
                 kind = "gated"
                 if later and later[0][0] == "latch":
                     kind = "latch"
                 elif later and later[0][3] is None and ("'read', '" + n + "'") in repr(later[0][2]):
                     kind = "ring"
-                m = {"name": n, "sig": s[2], "kind": kind, "data": None, "when": None}
-                self.flat.append(("in", f"_mw_{n}", s[2], 0))
+                m = {"name": inst, "sig": s[2], "kind": kind, "data": None, "when": None}
+                self.flat.append(("in", f"_mw_{inst}", s[2], 0))
                 m["iw"] = len(self.flat) - 1
-                self.flat.append(("in", f"_mh_{n}", s[2], 0))
+                self.flat.append(("in", f"_mh_{inst}", s[2], 0))
                 m["ih"] = len(self.flat) - 1
                 if kind == "gated":
-                    self.flat.append(("sig", f"_m_{n}", ("bin", "+", ("var", m["iw"]), ("var", m["ih"]))))
+                    self.flat.append(("sig", f"_m_{inst}", ("bin", "+", ("var", m["iw"]), ("var", m["ih"]))))
                     m["im"] = len(self.flat) - 1
                 elif kind == "ring":
-                    self.flat.append(("in", f"_mr_{n}", s[2], 0))
+                    self.flat.append(("in", f"_mr_{inst}", s[2], 0))
                     m["ir"] = len(self.flat) - 1
-                    self.flat.append(("sig", f"_m_{n}", ("var", m["ir"])))
+                    self.flat.append(("sig", f"_m_{inst}", ("var", m["ir"])))
                     m["im"] = len(self.flat) - 1
                 else:
-                    self.flat.append(("in", f"_ml_{n}", s[2], 0))
+                    self.flat.append(("in", f"_ml_{inst}", s[2], 0))
                     m["il"] = len(self.flat) - 1
                     m["im"] = None  # defined by the latch statement (needs the written value)
-                self.mems[n] = m
+                self.mems[inst] = m
                 self.scopes[-1][n] = ("mem", m)
             elif k == "write":
                 m = self.lookup(s[1])[1]
@@ -263,7 +274,7 @@ class Elab:
             elif k == "latch":
                 m = self.lookup(s[1])[1]
                 val = self.expr(s[2])
-                self.flat.append(("sig", f"_m_{s[1]}", ("bin", "*", val, ("var", m["il"]))))
+                self.flat.append(("sig", "_m_" + m["name"], ("bin", "*", val, ("var", m["il"]))))
                 m["im"] = len(self.flat) - 1
                 m["set"], m["reset"], m["set_first"] = self.expr(s[3]), self.expr(s[4]), bool(s[5])
             elif k == "place":
